@@ -12,6 +12,7 @@ import (
 	"math/big"
 	"os"
 	"path/filepath"
+	"strings"
 	"time"
 
 	"github.com/ethereum/go-ethereum/event"
@@ -250,7 +251,17 @@ func (n *Node) Close() {
 // harness-side nonce counters are re-initialised from the ledger; the logical clock keeps running.
 func (n *Node) Restart() error {
 	n.Close()
-	return n.open()
+	// Executor.Stop() lets a goroutine of the old executor close the old ledger asynchronously; until the
+	// old leveldb handles are really gone the directory lock is busy. That is a property of this in-process
+	// restart, not of bitxhub: retry for a while.
+	var err error
+	for i := 0; i < 100; i++ {
+		if err = n.open(); err == nil || !strings.Contains(err.Error(), "temporarily unavailable") {
+			return err
+		}
+		time.Sleep(30 * time.Millisecond)
+	}
+	return err
 }
 
 // Height is the persisted chain height.
